@@ -55,7 +55,7 @@ def run(ctx):
                                "of a resource through the id `any` and one through a specific id passes Worker.can_accomodate_strategy "
                                "(each entry checked on its own, resources.py:378-383) on a worker holding a single unit, then "
                                "Worker.place_task refuses it (clockwork_scheduler.py:905-919); witness corpus/C15/%s; model: "
-                               "C10_cw_returns_refuted" % ws[0]["file"])
+                               "C10_cw_returns_refuted (C10_cw_returns holds when no strategy names a resource twice)" % ws[0]["file"])
         try:
             c15.correspondence(ctx, ws, wi, "S-cw-witness(C10)")
         except core.ModelEvalError as e:
